@@ -104,7 +104,7 @@ def model_params(cfg, max_conn=6, pinned=()):
                            "realms": list(a["realms"]), "kind": a["kind"], "handler": a["handler"] if isinstance(a["handler"], str) else "hold",
                            "max": a.get("max_threads", 0)}
     return {"node": {"host": nc["host"], "realm": nc["realm"], "idle": nc["idle"], "dwa": nc["dwa"], "cer": nc["cer"],
-                     "cea": nc["cea"], "wakeup": nc["wakeup"], "retx": nc["retx"], "validate": nc["validate"]},
+                     "cea": nc["cea"], "wakeup": nc["wakeup"], "retx": nc["retx"], "validate": nc["validate"], "samehbh": bool(nc.get("samehbh"))},
             "peerOrder": order, "peers": peers, "appOrder": aorder, "apps": apps, "maxConn": max_conn, "pinned": list(pinned)}
 
 
@@ -281,6 +281,21 @@ class Runner:
             w.peer_close(self._vc(act["c"]))
         elif a == "peer_reset":
             w.peer_reset(self._vc(act["c"]))
+        elif a == "stall":
+            w.s.emit("stall", c=act["c"])
+            self._vc(act["c"]).sock.writable = False               # the peer stops reading: the socket never becomes writable again
+            w.run()
+        elif a == "multi":
+            real_run, real_srun = w.run, w.s.run
+            w.run = lambda: None
+            w.s.run = lambda *x, **k: 0
+            try:
+                for sub in act["acts"]:
+                    self._act(dict(sub))
+            finally:
+                w.run, w.s.run = real_run, real_srun
+            if not self.free:
+                w.run()
         elif a == "send_error":
             w.s.emit("send_error", c=act["c"])
             self._vc(act["c"]).sock.send_script.append(-32)       # the node's next send() on this socket fails with EPIPE
@@ -367,6 +382,11 @@ class Runner:
                 app._seen = getattr(app, "_seen", 0) + 1
                 if app.mode == "hold":
                     self.held.append((name, req))
+                elif app.mode == "raise":
+                    # the handler failed and the node answered itself; the application may still submit an answer later
+                    if not hasattr(self, "answered"):
+                        self.answered = []
+                    self.answered.append((name, req))
         out = self._collect()
         step = {"act": {k: v for k, v in act.items() if not k.startswith("_")}, "out": out, "snap": w.snap()}
         if self.free:
@@ -424,8 +444,9 @@ class Gen:
     def _ids(self):
         self.hbh += 1
         rng = self.rng
-        hbh = rng.choice([1, 2, 3]) if rng.random() < 0.5 else self.hbh + 10
-        e2e = rng.choice([1, 2, 3]) if rng.random() < 0.5 else self.hbh + 50
+        # small identifiers collide on purpose; 0 is a legal identifier too
+        hbh = rng.choice([1, 2, 3, 0]) if rng.random() < 0.5 else self.hbh + 10
+        e2e = rng.choice([1, 2, 3, 0]) if rng.random() < 0.5 else self.hbh + 50
         return hbh, e2e
 
     def message(self, vc):
@@ -461,8 +482,12 @@ class Gen:
                     return M("DW", True, hbh, e2e, oh=rng.choice(known))
                 vc.cer_sent = True
                 vc.ce_done = True
+                # (not good: nothing in common - also an id the node runs as authentication application offered for accounting only)
                 return M("CE", True, hbh, e2e, oh=rng.choice(cand) if rng.random() < 0.9 else rng.choice(known),
-                         auth=[4, 3] if good else rng.choice([[], [77]]), acct=[3] if good else [], relay=rng.random() < 0.05)
+                         auth=[4, 3] if good else rng.choice([[], [77]]), acct=[3] if good else rng.choice([[], [4], [77]]), relay=rng.random() < 0.05)
+            if rng.random() < 0.1 and getattr(vc, "dialled", None):
+                # the dialled peer sends a CER of its own instead of answering the node's (an outbound connection expects a CEA)
+                return M("CE", True, hbh, e2e, oh=vc.dialled, auth=[4, 3], acct=[3])
             kind = "cea"
         # each connection carries at most one CER (RFC 6733 5.3); after a successful exchange no further CE
         # messages are sent unless the profile asks for them (C06 leaves that behaviour unspecified)
@@ -538,7 +563,9 @@ class Gen:
                 return {"a": "frag", "c": vc.c, "m": m, "i": i + 1, "n": n}
             return {"a": "tick"} if x < 0.9 else {"a": "peer_close", "c": vc.c}
         if usable:
-            choices += [("feed", 12), ("peer_close", 1), ("peer_reset", 1), ("garbage", 0), ("frag", 0), ("send_error", 0)]
+            choices += [("feed", 12), ("peer_close", 1), ("peer_reset", 1), ("garbage", 0), ("frag", 0), ("send_error", 0), ("stall", 0)]
+            if len(usable) >= 2:
+                choices.append(("multi", 0))
         if connecting:
             choices.append(("connect_result", 6))
         if self.r.held:
@@ -578,6 +605,13 @@ class Gen:
             return {"a": "feed", "c": vc.c, "ms": [self.message(vc) for _ in range(n)]}
         if a in ("peer_close", "peer_reset", "garbage"):
             return {"a": a, "c": rng.choice(usable).c}
+        if a == "stall":
+            cand = [vc for vc in usable if vc.sock.writable]
+            return {"a": a, "c": rng.choice(cand).c} if cand else {"a": "tick"}
+        if a == "multi":
+            two = rng.sample(usable, 2)
+            kind = rng.choice(["garbage", "peer_close", "peer_reset"])
+            return {"a": "multi", "acts": [{"a": kind, "c": vc.c} for vc in sorted(two, key=lambda v: v.c)]}
         if a == "send_error":
             cand = [vc for vc in usable if not vc.sock.send_script]
             return {"a": a, "c": rng.choice(cand).c} if cand else {"a": "tick"}
